@@ -75,7 +75,7 @@ def decide(g, expr, S, model, den, timeout_ms):
             envs.append(env)
     except Unsupported as e:
         return {"verdict": "vocabulary", "why": str(e), "secs": 0.0}
-    verdict, m, dt = differ_any(Decider(model.constraints, timeout_ms), pairs)
+    verdict, m, dt = differ_any(Decider(model.constraints, timeout_ms, model.params), pairs)
     out["verdict"], out["secs"] = verdict, dt
     if verdict == "sat":
         for params in [model.model_to_params(m)] + [grid_params(model.params, s) for s in range(6)]:
